@@ -95,7 +95,7 @@ def run_pure(ctx):
     wcases = list(W.CORPUS) + [W.gen_case(env.rng("C20-wrap", i)) for i in range(ctx.n(500, 12000))]
     wchecks = W.run_wrap(ctx, wcases)
     FW.evaluate(ctx, "c20wrap", "wrap on corpus and grammar comments x widths/offsets/indents", wchecks)
-    rchecks = W.run_rst(ctx, [("ends with quote\"", 72, 4, None), ("a `b`", 72, 4, None), ("", 72, 0, None)] + rst_cases("C20-rst", ctx.n(150, 3000)))
+    rchecks = W.run_rst(ctx, list(W.RST_CORPUS) + rst_cases("C20-rst", ctx.n(150, 3000)))
     cchecks = W.run_contracts(ctx, ctx.n(150, 3000))
     FW.evaluate(ctx, "c20rst", "rst (plain path, quote guard, pandoc decision), textwrap contract, Metadata.doc, character classes", rchecks + cchecks)
 
@@ -279,5 +279,5 @@ def search(ctx, broken):
     """A theorem, pin or correspondence broke and the oracle was silent: look harder (fresh, larger streams)."""
     FW.run_cases(ctx, fixws_cases("C20-search-fw", 4000, 3000, 1000))
     W.run_wrap(ctx, [W.gen_case(env.rng("C20-search-wrap", i)) for i in range(12000)], kind="search")
-    W.run_rst(ctx, rst_cases("C20-search-rst", 3000), kind="search")
+    W.run_rst(ctx, list(W.RST_CORPUS) + rst_cases("C20-search-rst", 3000), kind="search")
     novel_first(ctx)
